@@ -46,6 +46,7 @@ func (w *World) engState() string {
 // handle returns the Engine value a control call uses: the zero value until
 // OnBoot has handed out the real one.
 func (w *World) handle() gnet.Engine {
+	vsched.Acquire(&w.pubEng)
 	if w.booted {
 		return w.eng
 	}
